@@ -45,7 +45,7 @@ def rule_no_process_settings():
 def run(tier, seed):
     chk = Check("C06", tier, seed, "other")
     from ..kernels import c06_keys, c06_freeze, c06_to_tracer, c06_graph
-    for k in c11_registry.C06_KERNELS + [c11_registry.Enter(), c11_registry.Exit()] + c06_keys.KERNELS + c06_freeze.KERNELS + c06_to_tracer.KERNELS + c06_graph.KERNELS:
+    for k in c11_registry.C06_KERNELS + [c11_registry.Enter(), c11_registry.Exit()] + c06_keys.KERNELS + c06_freeze.KERNELS + c06_to_tracer.KERNELS + [q for q in c06_graph.KERNELS if q.prop == "C06"]:
         chk.add_kernel(run_kernel(k, tier))
     ok, sites, failing, inv = frame.rule_shared(ALLOWED_WRITERS)
     chk.add_rule("C06.S.shared", ok, sites, failing, detail="no call-time writes to module-level state other than the registry (under its lock), functools caches and thread-locals")
